@@ -272,3 +272,65 @@ func UpParam(v ssa.Value) ssa.Value {
 	}
 	return v
 }
+
+// TopOf maps a site found (transparently) inside a helper of root to the call instruction in root's own body through which
+// the helper is entered; a site in root itself is returned unchanged. nil when the site is not reached from root, or is
+// reached through several different call sites.
+func TopOf(root *ssa.Function, s Site) ssa.Instruction {
+	fn := s.Instr.Parent()
+	if fn == root {
+		return s.Instr
+	}
+	chains := transparentChains(root, fn)
+	var top ssa.Instruction
+	for _, ch := range chains {
+		if len(ch) == 0 {
+			continue
+		}
+		if top != nil && top != ssa.Instruction(ch[0]) {
+			return nil
+		}
+		top = ch[0]
+	}
+	return top
+}
+
+// UpParamVia resolves a parameter of the transparent helper that contains site s to the argument passed by the call
+// through which root enters that helper (repeatedly, along the unique chain); other values are returned unchanged.
+// Unlike UpParam it works for a helper with several callers, as long as root itself reaches it through one chain.
+func UpParamVia(root *ssa.Function, s Site, v ssa.Value) ssa.Value {
+	for d := 0; d < maxInlineDepth; d++ {
+		x, ok := unwrap(v).(*ssa.Parameter)
+		if !ok || x.Parent() == root {
+			return v
+		}
+		g := x.Parent()
+		chains := transparentChains(root, g)
+		var call *ssa.Call
+		for _, ch := range chains {
+			if len(ch) == 0 {
+				continue
+			}
+			last := ch[len(ch)-1]
+			if call != nil && call != last {
+				return v
+			}
+			call = last
+		}
+		if call == nil {
+			return v
+		}
+		idx := -1
+		for i, pr := range g.Params {
+			if pr == x {
+				idx = i
+			}
+		}
+		args := call.Common().Args
+		if call.Common().IsInvoke() || idx < 0 || idx >= len(args) {
+			return v
+		}
+		v = args[idx]
+	}
+	return v
+}
